@@ -643,7 +643,7 @@ func (d *decoder) parseDataFields(dm *defmsg, knownMsg bool, msgv reflect.Value)
 			if pfield.t.BaseType() != types.BaseString && !pfield.t.Array() && !dfield.btype.Float() {
 				padding = pfield.t.BaseType().Size() - dsize
 			}
-		} else if d.opts.unknownFields {
+		} else if d.opts.unknownFields && knownMsg {
 			d.unknownFields[unknownField{dm.globalMsgNum, dfield.num}]++
 		}
 
